@@ -247,6 +247,12 @@ def orphans_race(rep, tier):
             rep.machinery_failure("TLC failed on XpmOrphansRace: " + str(res.error))
         elif not expect and not res.violation:
             rep.machinery_failure("XpmOrphansRace does not distinguish the two listing orders")
+    # ... and for any number of links, by proof (TLAPS): Inv is inductive and implies AllReferencedSeen
+    t0 = time.time()
+    proved, nobl, tail = tlc.tlaps("XpmOrphansRace_Proof.tla")
+    rep.cov["tlaps"] = {"module": "XpmOrphansRace_Proof", "obligations": nobl, "all_proved": proved, "wall_s": round(time.time() - t0, 1)}
+    if not proved:
+        rep.machinery_failure("TLAPS does not prove XpmOrphansRace_Proof: " + tail[-300:])
     with ProcessPoolExecutor(max_workers=1, initializer=_w_init) as ex:
         n, order, deleted, err = ex.submit(_w_orphans_race, 10**9).result()
     if err or deleted:
